@@ -7,12 +7,15 @@ for d in sorted(glob.glob(os.path.join(os.path.dirname(os.path.dirname(os.path.a
     except Exception:
         continue
     c = m.get("confirmed_by_lead", {})
-    py = {}
+    py = c.get("pytest") or {}
     if os.path.exists(os.path.join(d, "pytest.json")):
         py = json.load(open(os.path.join(d, "pytest.json")))
     fs = m.get("final_sweep") or {}
     caught = ", ".join(fs.get("caught_by") or c.get("caught_by", [])) or "**none**"
-    if fs and not fs.get("applies", True):
+    if fs and fs.get("applies", True) and fs.get("demo_with_change") == 0:
+        caught = "(superseded: on HEAD %s the patched tree passes its own demonstration -- a later `fix:` commit removed what the change relied on; caught when confirmed: %s)" % (
+            fs.get("repo_head"), ", ".join(c.get("caught_by", [])) or "none")
+    elif fs and not fs.get("applies", True):
         caught = "(patch no longer applies on HEAD %s) " % fs.get("repo_head") + (", ".join(c.get("caught_by", [])) or "none")
     summ = (m.get("summary") or "").replace("|", "/").replace("\n", " ")[:150]
     needs = (m.get("needs_to_manifest") or "").replace("|", "/").replace("\n", " ")[:120]
